@@ -24,7 +24,7 @@ HARNESSES = {
     'h_lu': dict(src='h_lu.cpp', insts=[]),
 }
 
-_c10_base = two_flavour('h_lu', 1000, 3000, 12000, 60000)
+_c10_base = two_flavour('h_lu', 1000, 3000, 3000, 15000)
 _c11_base = two_flavour('h_lu', 2500, 9000, 40000, 160000)
 
 
@@ -53,19 +53,21 @@ _C10_VARIANTS = ['solveRight.dense', 'solveRight.ssvec', 'solveRight.svec', 'sol
 
 def _c10_minima(tier):
     th = tier == 'thorough'
-    m = {'c10.updates_applied.FT': 60000 if th else 6000, 'c10.updates_applied.ETA': 60000 if th else 6000,
-         'c10.load.singular_checked': 4000 if th else 250, 'c10.load.wellcond_ok': 20000 if th else 1500,
-         'c10.sparse_result.setup_checked': 50000 if th else 5000, 'c10.forward_checked': 50000 if th else 5000,
-         'c10.refactorizations': 500 if th else 50, 'distinct:nontrivial': 1500 if th else 400}
+    m = {'c10.updates_applied.FT': 200000 if th else 15000, 'c10.updates_applied.ETA': 200000 if th else 15000,
+         'c10.load.singular_checked.alarm_domain': 1500 if th else 300, 'c10.load.wellcond_ok': 8000 if th else 1500,
+         'c10.sparse_result.setup_checked': 500000 if th else 100000, 'c10.forward_checked': 500000 if th else 100000,
+         'c10.index_guard.checked': 1000000 if th else 300000,
+         'c10.refactorizations': 2000 if th else 300, 'distinct:nontrivial': 1500 if th else 600}
     for v in _C10_VARIANTS:
         for ut in ('FT', 'ETA'):
-            m['c10.eval.%s.%s' % (v, ut)] = 10000 if th else 1000
+            m['c10.eval.%s.%s' % (v, ut)] = 30000 if th else 4000
     for v in ('solve2right4update.dense', 'solve2right4update.sparse', 'solve3right4update.dense', 'solve3right4update.sparse'):
         for ut in ('FT', 'ETA'):
-            m['c10.update.via.%s.%s' % (v, ut)] = 3000 if th else 300
-    m['c10.chain_bucket.3' if th else 'c10.chain_bucket.2'] = 100
+            m['c10.update.via.%s.%s' % (v, ut)] = 15000 if th else 1500
+    m['c10.chain_bucket.3' if th else 'c10.chain_bucket.2'] = 1000
     if th:
-        m['c10.chain_bucket.4'] = 100   # histories of more than 100 (up to 200) updates without refactorisation
+        m['c10.chain_bucket.4'] = 300   # histories of more than 100 (up to 200) updates without refactorisation
+    m['c10.update.via.change-with-eta-argument.ETA'] = 3000 if th else 300
     return m
 
 
